@@ -22,6 +22,7 @@ K_DEGENERATE = 'C11/warmup-degenerate-maxToken-equals-warningToken/unlimited'
 K_STARVED = 'C11/warmup-cold-rate-below-one-token/starved-forever'
 K_NEVERCOLD = 'C11/warmup-warningToken-zero/never-cold'
 K_STUCK = 'C11/warmup-tokens-rest-on-warning-line/not-cold-after-idle'
+K_STARVED_EDGE = 'C11/warmup-cold-rate-exactly-one-token/float-rounds-below-one/starved-forever'
 
 
 # ----------------------------------------------------------------------------- the classes of WarmUpOps, in Python
@@ -63,6 +64,11 @@ def classify(c, scn, exp):
     if cls == 'never-cold' and why == 'E2':
         return K_NEVERCOLD
     al = e.get('model_allowed') or [0, 0]
+    if cls == 'healthy' and why in ('E3', 'E4') and cfg['tn'] == cfg['td'] * wu_params(cfg)[3] and e.get('window') == 0 \
+            and al[1] != 0 and al[0] == al[1]:
+        # T = coldFactor: the cold rate is exactly one token in exact arithmetic (the transcription admits it) and the float
+        # computation rounds it below one for some periods (e.g. T 10, cold 10, period 4): nothing is ever admitted
+        return K_STARVED_EDGE
     if cls == 'healthy' and why == 'E2' and e.get('model_tokens') == W and al[1] != 0 and al[0] * cfg['td'] == cfg['tn'] * al[1]:
         return K_STUCK      # cold by the clock, yet the token count rests exactly on the warning line and the full threshold applies
     return None
@@ -149,6 +155,17 @@ def random_warmup(c, n, first_tr):
                                                            1000 * (2 * p + 3)])))
             scns.append(s)
     return scns
+
+
+def fixed_warmup(first_tr):
+    """always-present scenarios: one or two members of every known defect class (so that the verdict does not depend on the seed)
+    and the decimal threshold 0.1 quoted in the design notes; steady single-token or saturating demand"""
+    out = []
+    for tn, td, p, cf, n in [(1, 1, 1, 3, 3), (1, 10, 1, 3, 2), (0, 1, 2, 3, 2), (2, 1, 5, 3, 1), (6, 1, 1, 10, 8), (10, 1, 4, 10, 1), (6, 1, 3, 6, 1),
+                             (10, 1, 2, 3, 12), (3, 1, 5, 2, 5)]:
+        hist = [dict(tn=tn, td=td, p=p, c=cf)] + [dict(n=n)] * (2 * p + 8)
+        out.append(from_secs(hist, first_tr + len(out), None, off=7))
+    return out
 
 
 def random_mem(c, n, first_tr):
@@ -256,8 +273,11 @@ def binding_selftest_warmup(c, tp):
     want_dr = set(range(len(env) + 1, len(env) + len(dr) + 1))
     # (a flipped decision exactly on the tolerance edge is accepted by design: allow a few)
     if len(env) < 5 or not want_env <= got or len(dr) < 5 or len(want_dr - drift - got) > len(dr) // 4:
-        raise MachineryError('warm-up binding self-test failed: envelope %d corrupted / %d rejected; transcription %d corrupted / %d reported'
-                             % (len(env), len(want_env & got), len(dr), len(want_dr & (drift | got))))
+        # (deferred: a tree that breaks the property may not produce the good traces the self-test needs; a VIOLATION found by the
+        # same run takes precedence over this exit-2 condition)
+        c.inconclusive.append('warm-up binding self-test failed: envelope %d corrupted / %d rejected; transcription %d corrupted / %d reported'
+                              % (len(env), len(want_env & got), len(dr), len(want_dr & (drift | got))))
+        return
     c.cov['binding_selftest_warmup'] = ('%d traces with an admission above the threshold: all rejected by the envelope; %d traces with one '
                                         'flipped decision: %d reported as drift from the transcription' % (len(env), len(dr), len(want_dr & (drift | got))))
     c.log('binding self-test (warm-up): ' + c.cov['binding_selftest_warmup'])
@@ -278,7 +298,8 @@ def binding_selftest_mem(c, tp):
     mism, consumed, r = c.validate('MemAdaptive_Trace', cp, sum(len(t) for t in traces))
     got = {m[0] for m in mism}
     if got != want or len(want) < 10:
-        raise MachineryError('memory-adaptive binding self-test failed: corrupted %s, rejected %s' % (sorted(want), sorted(got)))
+        c.inconclusive.append('memory-adaptive binding self-test failed: corrupted %s, rejected %s' % (sorted(want), sorted(got)))
+        return
     c.cov['binding_selftest_mem'] = '%d traces with one corrupted admission count at a water mark, all rejected' % len(want)
     c.log('binding self-test (memory-adaptive): ' + c.cov['binding_selftest_mem'])
 
@@ -424,7 +445,9 @@ def check(c, tier, replay):
         sim_scns.append(from_secs(hh, tr, c.rng))
     c.log('S2: %d lead scenarios, %d TLC-simulated demand histories' % (len(lead_scns), len(sim_scns)))
     nrand = 250 if not thorough else 4000
-    rand_scns = random_warmup(c, nrand, tr + 1)
+    rand_scns = fixed_warmup(tr + 1)
+    tr += len(rand_scns)
+    rand_scns += random_warmup(c, nrand, tr + 1)
     tr += nrand
     nmem = 300 if not thorough else 5000
     mem_scns = random_mem(c, nmem, tr + 1)
@@ -447,7 +470,7 @@ def check(c, tier, replay):
                                           '(first: trace %d %s)' % (len(quiet), quiet[0], part[[s[0]['tr'] for s in part].index(quiet[0])][0]))
             if tag == 'rand' and i == 0:
                 binding_selftest_warmup(c, tp)
-            if tag == 'mem' and i == 0 and not mism:
+            if tag == 'mem' and i == 0:
                 binding_selftest_mem(c, tp)
             handle_mismatches(c, drv, part, mism, tag, module)
     allwu = lead_scns + sim_scns + rand_scns
@@ -464,7 +487,7 @@ def check(c, tier, replay):
                      'water marks' % (len(lead_scns), len(sim_scns), nrand, nmem))
     c.cov['warmup_classes'] = {k: sum(1 for s in allwu if wu_class(s[0]) == k) for k in ('healthy', 'degenerate', 'cold-below-one', 'never-cold')}
     c.sample(lead_scns[0][:8])
-    c.sample(rand_scns[0][:10])
+    c.sample(rand_scns[-1][:10])
     c.sample(mem_scns[0][:8])
     c.assumptions += ['thresholds are dyadic rationals of moderate size: every float the calculator computes is then exact or cannot cross an '
                       'integer boundary; a decision is accepted either way when cur + batch equals the rational threshold exactly',
